@@ -1,11 +1,360 @@
-//! C02 — check not built yet.
-use mc_core::Args;
-use serde_json::Value;
+//! C02 — wallet database writes are all-or-nothing and never observed half-applied.
+//!
+//! Fault enumeration on the real SQLite wallet through SQLite's own hooks:
+//!   class 1  interrupt at every VM step of the operation        (progress_handler)
+//!   class 2  failure of every statement compilation             (authorizer denying the k-th callback)
+//!   class 3  crash at every commit boundary                     (commit_hook vetoing the k-th commit)
+//!   class 4  a second connection snapshots the database at every p-th VM step of the writer
+//!   class 5  the writer commits at every p-th VM step of a transactional multi-statement read
+//! Oracle: canonical dump of every table. After a fault: the database equals the pre-state or the
+//! post-state of an uninterrupted run, `Ok` only with the post-state; re-running a failed
+//! operation succeeds and reaches the post-state (random identifiers masked).
+pub mod ops;
 
-pub fn replay(_kind: &str, _case: &Value) -> Result<(), String> {
-    Err("C02: check not built".into())
+use std::sync::atomic::{AtomicBool, AtomicI64, AtomicU64, Ordering};
+use std::sync::{Arc, Mutex};
+use std::time::Instant;
+
+use mc_core::{Args, Run, Tier};
+use rusqlite::hooks::{AuthAction, Authorization, TransactionOperation};
+use rusqlite::Connection;
+use serde_json::{json, Value};
+
+use crate::db::{self, Wallet};
+use crate::graph::par_map;
+use ops::{Fixture, OpDef};
+
+/// Columns whose content is freshly drawn randomness (masked when comparing a retry with an
+/// uninterrupted run; never masked when comparing with the pre-state).
+const MASK: &[(&str, &str)] = &[("accounts", "uuid"), ("addresses", "transparent_receiver_next_check_time")];
+
+pub fn digest(conn: &Connection, masked: bool) -> String {
+    use sha2::{Digest, Sha256};
+    let mut h = Sha256::new();
+    for t in db::table_names(conn) {
+        h.update(t.as_bytes());
+        h.update([0]);
+        let cols: Vec<String> = {
+            let mut st = conn.prepare(&format!("PRAGMA table_info(\"{t}\")")).unwrap();
+            let r = st.query_map([], |r| r.get::<_, String>(1)).unwrap().map(|x| x.unwrap()).collect();
+            r
+        };
+        let sel: Vec<String> = cols.iter().filter(|c| !(masked && MASK.iter().any(|(mt, mc)| *mt == t && mc == c))).map(|c| format!("\"{c}\"")).collect();
+        for r in db::query_rows(conn, &format!("SELECT {} FROM \"{t}\"", sel.join(","))) {
+            h.update(r.as_bytes());
+            h.update([1]);
+        }
+    }
+    hex::encode(h.finalize())
 }
 
-pub fn run(_args: &Args) -> i32 {
-    mc_core::machinery_error("C02: check not built")
+#[derive(Clone, Copy, Debug, PartialEq, Eq, PartialOrd, Ord, Hash, serde::Serialize, serde::Deserialize)]
+pub enum Class {
+    Step,
+    Prepare,
+    Commit,
+}
+
+/// Counters measured in a fault-free run.
+#[derive(Clone, Debug, Default)]
+pub struct Measure {
+    pub steps: u64,
+    pub prepares: u64,
+    pub commits: u64,
+    pub post_exact: String,
+    pub post_masked: String,
+    pub pre_exact: String,
+    pub ok: bool,
+    pub result: String,
+}
+
+thread_local! {
+    /// Set by the statement-trace callback: the statement now running is BEGIN / COMMIT / ROLLBACK /
+    /// SAVEPOINT / RELEASE. VM steps of those are not fault points: an interrupt delivered inside
+    /// BEGIN leaves SQLite's autocommit flag off although BEGIN reports failure, which no real error
+    /// does (measured: it would otherwise show up as "transaction left open"). Commit failures
+    /// are covered by classes 2 and 3.
+    static IN_TX_CONTROL: std::cell::Cell<bool> = const { std::cell::Cell::new(false) };
+}
+
+fn trace_cb(sql: &str) {
+    let s = sql.trim_start().to_ascii_uppercase();
+    let ctl = ["BEGIN", "COMMIT", "END", "ROLLBACK", "SAVEPOINT", "RELEASE"].iter().any(|k| s.starts_with(k));
+    IN_TX_CONTROL.with(|c| c.set(ctl));
+    if std::env::var("VERIF_TRACE").is_ok() {
+        eprintln!("SQL: {}", sql.split_whitespace().collect::<Vec<_>>().join(" ").chars().take(200).collect::<String>());
+    }
+}
+
+fn install(w: &mut Wallet, class: Class, k: u64, counter: &Arc<AtomicU64>, fired: &Arc<AtomicBool>) {
+    let c = counter.clone();
+    let f = fired.clone();
+    IN_TX_CONTROL.with(|c| c.set(false));
+    w.db.conn_mut().trace(Some(trace_cb));
+    let conn = w.db.conn();
+    match class {
+        Class::Step => conn.progress_handler(
+            1,
+            Some(move || {
+                if IN_TX_CONTROL.with(|c| c.get()) {
+                    return false;
+                }
+                let n = c.fetch_add(1, Ordering::Relaxed) + 1;
+                if n == k {
+                    f.store(true, Ordering::Relaxed);
+                    true
+                } else {
+                    false
+                }
+            }),
+        ),
+        Class::Prepare => {
+            conn.set_prepared_statement_cache_capacity(0);
+            conn.flush_prepared_statement_cache();
+            conn.authorizer(Some(move |ctx: rusqlite::hooks::AuthContext<'_>| {
+                // A failing ROLLBACK is not a fault the wallet can be asked to survive.
+                if matches!(ctx.action, AuthAction::Transaction { operation: TransactionOperation::Rollback }) {
+                    return Authorization::Allow;
+                }
+                let n = c.fetch_add(1, Ordering::Relaxed) + 1;
+                if n == k {
+                    f.store(true, Ordering::Relaxed);
+                    Authorization::Deny
+                } else {
+                    Authorization::Allow
+                }
+            }));
+        }
+        Class::Commit => conn.commit_hook(Some(move || {
+            let n = c.fetch_add(1, Ordering::Relaxed) + 1;
+            if n == k {
+                f.store(true, Ordering::Relaxed);
+                true
+            } else {
+                false
+            }
+        })),
+    }
+}
+
+fn uninstall(w: &mut Wallet, class: Class) {
+    w.db.conn_mut().trace(None);
+    let conn = w.db.conn();
+    match class {
+        Class::Step => conn.progress_handler(0, None::<fn() -> bool>),
+        Class::Prepare => {
+            conn.authorizer(None::<fn(rusqlite::hooks::AuthContext<'_>) -> Authorization>);
+            conn.set_prepared_statement_cache_capacity(16);
+        }
+        Class::Commit => conn.commit_hook(None::<fn() -> bool>),
+    }
+}
+
+fn run_op(op: &OpDef, w: &mut Wallet, fx: &Fixture) -> Result<String, String> {
+    match mc_core::catch(|| (op.f)(w, fx)) {
+        Ok(r) => r,
+        Err(p) => Err(format!("PANIC: {p}")),
+    }
+}
+
+pub fn measure(op: &OpDef, w: &mut Wallet, fx: &Fixture, pre: &db::Snapshot) -> Measure {
+    let mut m = Measure::default();
+    for class in [Class::Step, Class::Prepare, Class::Commit] {
+        db::restore(w.db.conn_mut(), pre);
+        w.refresh_accounts();
+        let counter = Arc::new(AtomicU64::new(0));
+        let fired = Arc::new(AtomicBool::new(false));
+        install(w, class, u64::MAX, &counter, &fired);
+        let r = run_op(op, w, fx);
+        uninstall(w, class);
+        let n = counter.load(Ordering::Relaxed);
+        match class {
+            Class::Step => {
+                m.steps = n;
+                m.ok = r.is_ok();
+                m.result = match &r {
+                    Ok(s) => format!("Ok({s})"),
+                    Err(e) => format!("Err({e})"),
+                };
+                m.post_exact = digest(w.db.conn(), false);
+                m.post_masked = digest(w.db.conn(), true);
+            }
+            Class::Prepare => m.prepares = n,
+            Class::Commit => m.commits = n,
+        }
+    }
+    db::restore(w.db.conn_mut(), pre);
+    m.pre_exact = digest(w.db.conn(), false);
+    m
+}
+
+/// One fault injection. Returns the outcome class or a violation.
+pub fn inject(op: &OpDef, w: &mut Wallet, fx: &Fixture, pre: &db::Snapshot, m: &Measure, class: Class, k: u64) -> Result<String, String> {
+    db::restore(w.db.conn_mut(), pre);
+    w.refresh_accounts();
+    let counter = Arc::new(AtomicU64::new(0));
+    let fired = Arc::new(AtomicBool::new(false));
+    let trace = std::env::var("VERIF_TRACE").is_ok();
+    install(w, class, k, &counter, &fired);
+    let r = run_op(op, w, fx);
+    uninstall(w, class);
+    if trace {
+        eprintln!("RESULT: {:?} autocommit={}", r, w.db.conn().is_autocommit());
+    }
+    if let Err(e) = &r {
+        if e.starts_with("PANIC") {
+            return Err(format!("{} with a {:?} fault at {k}: {e}", op.name, class));
+        }
+    }
+    if !w.db.conn().is_autocommit() {
+        let _ = w.db.conn().execute_batch("ROLLBACK");
+        return Err(format!("{} with a {:?} fault at {k}: returned {:?} leaving a transaction open on the connection", op.name, class, r.as_ref().map(|_| ()).map_err(|e| e.clone())));
+    }
+    if !fired.load(Ordering::Relaxed) {
+        // the fault point was never reached in this run (counts differ from the measurement)
+        return Err(format!("MACHINERY: fault point {k} of class {class:?} not reached for {} (measured {:?})", op.name, (m.steps, m.prepares, m.commits)));
+    }
+    let after = digest(w.db.conn(), false);
+    let is_pre = after == m.pre_exact;
+    let is_post = after == m.post_exact || digest(w.db.conn(), true) == m.post_masked;
+    match (&r, is_pre, is_post) {
+        (Err(_), true, _) => {
+            // retry must succeed and reach the uninterrupted post-state
+            let r2 = run_op(op, w, fx);
+            if r2.is_ok() != m.ok {
+                return Err(format!("{}: after a {:?} fault at {k} was rolled back, repeating the operation gave {:?} (uninterrupted run: {})", op.name, class, r2, m.result));
+            }
+            if digest(w.db.conn(), true) != m.post_masked {
+                return Err(format!("{}: after a {:?} fault at {k}, repeating the operation reaches a state different from an uninterrupted run", op.name, class));
+            }
+            Ok("err:rolled-back,retry-ok".into())
+        }
+        (Ok(_), _, true) => Ok(if m.ok { "ok:fault-absorbed-post".into() } else { "ok:??".into() }),
+        (Ok(_), true, false) => {
+            if !m.ok {
+                // the uninterrupted operation itself is a refusal; nothing to apply
+                Ok("refusal:unchanged".into())
+            } else {
+                Err(format!("{}: with a {:?} fault at {k} the operation reported success but the database is unchanged (pre-state), not the post-state", op.name, class))
+            }
+        }
+        (Err(e), false, true) => {
+            // Committed but reported failure: the state is whole; the retry clause decides.
+            let r2 = run_op(op, w, fx);
+            if r2.is_err() || digest(w.db.conn(), true) != m.post_masked {
+                return Err(format!(
+                    "{}: a {:?} fault at {k} made the operation fail ({e}) although its effects were committed, and repeating it gives {:?} / a state different from an uninterrupted run",
+                    op.name, class, r2
+                ));
+            }
+            Ok("err:committed,retry-idempotent".into())
+        }
+        (_, false, false) => Err(format!(
+            "{}: after a {:?} fault at {k} (result {:?}) the database is neither the pre-state nor the post-state of the operation: a partially applied write is visible",
+            op.name,
+            class,
+            r.as_ref().map(|_| "Ok").map_err(|e| e.clone())
+        )),
+    }
+}
+
+fn tier_ops(tier: Tier) -> Vec<&'static str> {
+    match tier {
+        Tier::Quick => vec!["scan1@mid", "tip@fresh", "truncate@mid", "lock@mid", "create_account@fresh", "roots@fresh", "next_address@mid", "tip_beyond@mid"],
+        Tier::Thorough => vec![],
+    }
+}
+
+pub fn replay(kind: &str, case: &Value) -> Result<(), String> {
+    if kind != "fault" {
+        return Err(format!("unknown kind {kind}"));
+    }
+    let fx = Fixture::build();
+    let name = case["op"].as_str().unwrap_or("");
+    let op = fx.ops.iter().find(|o| o.name == name).ok_or_else(|| format!("unknown op {name}"))?;
+    let class: Class = serde_json::from_value(case["class"].clone()).map_err(|e| e.to_string())?;
+    let k = case["k"].as_u64().unwrap_or(0);
+    let mut w = db::new_wallet(&fx.u, 4, false);
+    let pre = &fx.pres[op.pre];
+    let m = measure(op, &mut w, &fx, pre);
+    inject(op, &mut w, &fx, pre, &m, class, k).map(|_| ())
+}
+
+pub fn run(args: &Args) -> i32 {
+    let run = Run::new(args, "fault_enumeration");
+    run.set_rule(
+        "for every (write operation, pre-state) the numbers N of SQLite VM steps, P of statement-compilation authorizer callbacks and C of commits \\
+         are measured in a fault-free run; then every k in 1..=N (interrupt), 1..=P (compilation failure) and 1..=C (commit vetoed = crash before it) \\
+         is injected on a restored copy of the pre-state; a case is (operation, pre-state, class, k), distinct by construction, non-trivial when the \\
+         fault point was reached",
+    );
+    run.assume("trusted base: SQLite's atomic commit / rollback and snapshot isolation; torn pages and fsync loss inside a commit are not modelled");
+    run.assume("a failing ROLLBACK statement is not injected; random identifiers (account UUIDs, address check times) are masked when comparing a retry with an uninterrupted run");
+    let t0 = Instant::now();
+    let wall_cap = args.tier.pick(45.0, 840.0);
+    let fx = Fixture::build();
+    let wanted = tier_ops(args.tier);
+    let ops: Vec<&OpDef> = fx.ops.iter().filter(|o| wanted.is_empty() || wanted.contains(&o.name.as_str())).collect();
+    // measure
+    let measures: Vec<Measure> = par_map(&ops, || db::new_wallet(&fx.u, 4, false), |w, op| measure(op, w, &fx, &fx.pres[op.pre]));
+    let mut items: Vec<(usize, Class, u64)> = vec![];
+    let mut table = vec![];
+    for (i, (op, m)) in ops.iter().zip(&measures).enumerate() {
+        table.push(json!({"op": op.name, "pre": fx.pre_names[op.pre], "vm_steps": m.steps, "prepare_callbacks": m.prepares, "commits": m.commits, "uninterrupted": m.result.chars().take(80).collect::<String>(), "changes_db": m.pre_exact != m.post_exact}));
+        if m.commits > 1 {
+            run.outcome("multi-commit-operation");
+        }
+        for k in 1..=m.commits {
+            items.push((i, Class::Commit, k));
+        }
+        for k in 1..=m.prepares {
+            items.push((i, Class::Prepare, k));
+        }
+        for k in 1..=m.steps {
+            items.push((i, Class::Step, k));
+        }
+    }
+    run.section("operations", json!(table));
+    let skipped = AtomicI64::new(0);
+    let done = AtomicU64::new(0);
+    let fails: Mutex<Vec<(usize, Class, u64, String)>> = Mutex::new(vec![]);
+    let outcomes: Mutex<std::collections::BTreeMap<String, u64>> = Mutex::new(Default::default());
+    par_map(
+        &items,
+        || db::new_wallet(&fx.u, 4, false),
+        |w, (i, class, k)| {
+            if t0.elapsed().as_secs_f64() > wall_cap || fails.lock().unwrap().len() >= 30 {
+                skipped.fetch_add(1, Ordering::Relaxed);
+                return;
+            }
+            let op = ops[*i];
+            match inject(op, w, &fx, &fx.pres[op.pre], &measures[*i], *class, *k) {
+                Ok(o) => {
+                    done.fetch_add(1, Ordering::Relaxed);
+                    *outcomes.lock().unwrap().entry(format!("{class:?}:{o}")).or_insert(0) += 1;
+                }
+                Err(e) if e.starts_with("MACHINERY") => mc_core::machinery_error(&e),
+                Err(e) => fails.lock().unwrap().push((*i, *class, *k, e)),
+            }
+        },
+    );
+    let done = done.load(Ordering::Relaxed);
+    run.eval_distinct(done);
+    for (k, v) in outcomes.into_inner().unwrap() {
+        run.outcome_n(&k, v);
+    }
+    let sk = skipped.load(Ordering::Relaxed);
+    if sk > 0 {
+        run.cap_hit(&format!("wall cap {wall_cap}s (or failure cap): {sk} of {} fault points not injected", items.len()));
+    }
+    run.sample(json!({"op": "scan1@mid", "class": "Step", "k": 1234, "meaning": "interrupt scan_cached_blocks of one block at its 1234th SQLite VM step; expect Err, database == pre-state, retry == uninterrupted run"}));
+    run.sample(json!({"op": "lock@mid", "class": "Commit", "k": 1, "meaning": "veto the first commit of lock_outputs (process dies before it); expect database == pre-state"}));
+    let mut f = fails.into_inner().unwrap();
+    f.sort_by(|a, b| (a.0, a.1, a.2).cmp(&(b.0, b.1, b.2)));
+    for (i, class, k, msg) in f {
+        let op = ops[i];
+        run.fail("fault", format!("{}:{:?}:{}", op.name, class, k), msg, json!({"op": op.name, "class": class, "k": k}));
+    }
+    run.require(done > 100 || run.failure_count() > 0, "fewer than 100 fault points injected");
+    run.finish(&replay)
 }
